@@ -219,6 +219,10 @@ pub fn run(run: &'static Run) {
         vec![(B::from("gpgsig"), B::from("a\nb\n"))],
         vec![(B::from("mergetag"), B::from("object 1\n\nmsg\n")), (B::from("y"), B::from("1"))],
         vec![(B::from("e"), B::from(""))],
+        // carriage returns belong to the value: CRLF lines in a multi-line value, a single line ending in CR, a lone CR inside
+        vec![(B::from("gpgsig"), B::from("a\r\nb\r\n"))],
+        vec![(B::from("gpgsig"), B::from("a\r\n\r\nb\n")), (B::from("x"), B::from("v\r"))],
+        vec![(B::from("mergetag"), B::from("o\rp\nq\r\n"))],
     ];
     let messages: Vec<B> = vec![B::from(""), B::from("m"), B::from("m\n"), B::from("\n\nm"), B(vec![0, 0xff, b'\n'])];
     run.sub(
